@@ -83,6 +83,26 @@ where
                 let qb = Q::new(bb, uv);
                 let r = guard(|| (rels(&qa, &qb), rels(&qb, &qa)));
                 rep.count("transitions", 14);
+                // second entry point: the trait methods the operators forward to must give the same answers
+                let m = guard(|| {
+                    (
+                        <Q as HasRefUnit>::eq(&qa, &qb),
+                        <Q as HasRefUnit>::partial_cmp(&qa, &qb),
+                        <Q as HasRefUnit>::eq(&qb, &qa),
+                        <Q as HasRefUnit>::partial_cmp(&qb, &qa),
+                    )
+                });
+                rep.count("transitions", 4);
+                if let (Ok((ab, ba)), Ok((e1, p1, e2, p2))) = (&r, &m) {
+                    if *e1 != ab.eq || *p1 != ab.pc || *e2 != ba.eq || *p2 != ba.pc {
+                        rep.violation(
+                            "C02/trait-methods-disagree-with-operators",
+                            case(key, "HasRefUnit::eq / partial_cmp", json!({"a": show_q(a, b.vname(iu)), "b": show_q(bb, b.vname(iv))})),
+                            format!("methods: {e1} {:?} / {e2} {:?}", p1, p2),
+                            format!("operators: {} {:?} / {} {:?}", ab.eq, ab.pc, ba.eq, ba.pc),
+                        );
+                    }
+                }
                 let (ab, ba) = match r {
                     Ok(x) => x,
                     Err(p) => {
